@@ -86,6 +86,7 @@ type Result struct {
 	States     []string       `json:"states"`
 	NonTrivial bool           `json:"nontrivial"`
 	Used       []int          `json:"used"`
+	Inconcl    string         `json:"inconclusive"`
 }
 
 type ScenarioInfo struct {
@@ -1110,7 +1111,7 @@ func writeEvidence(prop, tier string, seed uint64, info *ScenarioInfo, b *build,
 	strategies := map[string]int{}
 	var steps, picks, nondflt, ops int
 	var simMs int64
-	leaked, adopted := 0, 0
+	leaked, adopted, inconcl := 0, 0, 0
 	var samples []any
 	for _, r := range results {
 		steps += r.Steps
@@ -1119,6 +1120,9 @@ func writeEvidence(prop, tier string, seed uint64, info *ScenarioInfo, b *build,
 		ops += r.Ops
 		simMs += r.SimMs
 		leaked += r.Leaked
+		if r.Inconcl != "" {
+			inconcl++
+		}
 		adopted += r.Adopted
 		interleavings[r.Hash] = true
 		for k, v := range r.Faults {
@@ -1191,6 +1195,7 @@ func writeEvidence(prop, tier string, seed uint64, info *ScenarioInfo, b *build,
 			"variants":              variants,
 			"strategies":            strategies,
 			"leaked_goroutine_runs": leaked,
+			"inconclusive_runs_budget_exhausted": inconcl,
 			"adopted_goroutines":    adopted,
 			"real_code":             info.Real,
 			"models_and_stubs":      info.Model,
